@@ -74,6 +74,15 @@ pub fn eval_str(ctx: &mut Ctx, s: &str, cfg: &EncCase, tag: &str) {
             return ctx.violation("latch_into_disabled_mode", &case(), format!("encode_str: stream latches into {} but enabled modes are {}; stream {:?}", m.name(), crate::util::mask_names(cfg.mask), &data[..data.len().min(40)]));
         }
     }
+    if cfg.mask & 1 == 0 {
+        let n = d.body_modes.len();
+        if let Some(p) = d.body_modes.iter().position(|m| *m == Mode::Ascii) {
+            let all_suffix = d.body_modes[p..].iter().all(|m| *m == Mode::Ascii);
+            if !all_suffix || n - p > 4 {
+                return ctx.violation("ascii_used_while_disabled", &case(), format!("encode_str: ASCII carries body bytes {}..{} of {} although ASCII is disabled (suffix-only: {})", p, n, n, all_suffix));
+            }
+        }
+    }
     ctx.count(&format!("workload.{}", tag));
     ctx.count_n("latches_checked", d.latches.len() as u64);
     if cfg.mask != 63 {
@@ -90,7 +99,7 @@ pub fn run(ctx: &mut Ctx) {
         b"A1a A1a A1a A1a A1a A1a A1a A1a ".to_vec(),
     ];
     let mut item = 0;
-    for mask in 1..=63u8 {
+    for mask in 0..=63u8 {
         for f in &fixed {
             for list in ["default", "all", "Square144"] {
                 if ctx.mine(item) {
@@ -100,7 +109,20 @@ pub fn run(ctx: &mut Ctx) {
             }
         }
     }
-    ctx.exhaustive.insert("63_mode_subsets_x_fixed_inputs".into(), true);
+    ctx.exhaustive.insert("64_mode_subsets_x_fixed_inputs".into(), true);
+    // the string entry point under every mode subset: printable ASCII, ASCII with control characters, Latin-1, beyond
+    {
+        let strs = ["HELLO WORLD 123", "line one\nline two\ttab", "ABC\u{1d}DEF\u{1d}123456", "Gr\u{fc}\u{df}e aus K\u{f6}ln", "\u{65e5}\u{672c}\u{8a9e} text", "a\u{85}b", "lower case only text"];
+        for mask in 0..=63u8 {
+            for (si, st) in strs.iter().enumerate() {
+                if ctx.mine(item) {
+                    let cfg = EncCase { input: vec![], list: if si % 2 == 0 { "default".into() } else { "all".into() }, mask, macros: si % 3 != 0, fnc1: false, eci: None, order: (mask % 24) as u8, prelude: 0, skipdef: false, entry: 0 };
+                    eval_str(ctx, st, &cfg, "strings_x_all_64_subsets");
+                }
+                item += 1;
+            }
+        }
+    }
     // small scope: every string of length <= 3 over class representatives under every mode subset
     let alpha: [u8; 12] = [b'1', b'A', b'a', b' ', b'\r', b'*', b'!', b'?', b'~', 0x80, 0x1d, b'>'];
     let mut idx = 0usize;
@@ -114,7 +136,7 @@ pub fn run(ctx: &mut Ctx) {
                     v.push(alpha[c % alpha.len()]);
                     c /= alpha.len();
                 }
-                for mask in 1..=63u8 {
+                for mask in 0..=63u8 {
                     eval(ctx, &EncCase { input: v.clone(), list: "default".into(), mask, macros: false, fnc1: code % 7 == 3, eci: None, order: 0, prelude: 0, skipdef: false, entry: 0 }, "small_scope_all_63_subsets");
                 }
             }
@@ -135,7 +157,8 @@ pub fn run(ctx: &mut Ctx) {
         eval(ctx, &c, "generated");
         if i % 4 == 1 {
             // the string entry point with the same configuration
-            let mut st: String = c.input.iter().take(400).map(|b| *b as char).filter(|ch| !ch.is_control()).collect();
+            // (control characters are kept: the string entry point treats them differently from printable text)
+            let mut st: String = c.input.iter().take(400).map(|b| *b as char).filter(|ch| i % 16 == 1 || !ch.is_control() || (*ch as u32) < 0x20).collect();
             if i % 8 == 1 {
                 st.push_str(*ctx.rng.pick(&["\u{20ac}", "\u{3b1}\u{3b2}", "\u{65e5}\u{672c}\u{8a9e}", "\u{1f600}"]));
                 if ctx.rng.chance(1, 2) {
